@@ -1,1 +1,800 @@
-//! m2 — reference model (to be written)
+//! M2 — reference verifier (DESIGN §3, Appendix A.2 / A.3).
+//!
+//! Deliberately naive and independent: the inputs are BYTES
+//! (`Verifier::to_bytes()`, `Proof::to_bytes()`) plus the public-input vector;
+//! nothing of dusk-plonk is called. Trusted base: dusk-bls12_381 field / group /
+//! pairing primitives (single-element decoding included) and merlin.
+//!
+//! What is stated here and nowhere shared with the code under test:
+//!   * the byte layouts of verifier and proof,
+//!   * the Fiat-Shamir transcript as a literal table of steps (`transcript_table`),
+//!   * Z_H(z), L_i(z), PI(z) from their definitions (O(n) products over the domain),
+//!   * the five widget identities, the permutation term, the quotient shares,
+//!   * F, E and the final check as two independent `pairing()` calls.
+
+use dusk_bls12_381::{pairing, BlsScalar, G1Affine, G1Projective, G2Affine, ROOT_OF_UNITY, TWO_ADACITY};
+use merlin::Transcript;
+
+use crate::fe::Fe;
+
+// ---------------------------------------------------------------------------
+// Layouts
+// ---------------------------------------------------------------------------
+
+/// Order of the 15 verifier-key commitments as serialized by
+/// `impl Serializable for VerifierKey` (u64 LE `n`, then these, 48 bytes each).
+pub const Q_M: usize = 0;
+pub const Q_L: usize = 1;
+pub const Q_R: usize = 2;
+pub const Q_O: usize = 3;
+pub const Q_F: usize = 4;
+pub const Q_C: usize = 5;
+pub const Q_ARITH: usize = 6;
+pub const Q_LOGIC: usize = 7;
+pub const Q_RANGE: usize = 8;
+pub const Q_FIXED: usize = 9;
+pub const Q_VAR: usize = 10;
+pub const S_SIGMA_1: usize = 11;
+pub const S_SIGMA_2: usize = 12;
+pub const S_SIGMA_3: usize = 13;
+pub const S_SIGMA_4: usize = 14;
+pub const VK_COMM_NAMES: [&str; 15] = [
+    "q_m", "q_l", "q_r", "q_o", "q_f", "q_c", "q_arith", "q_logic", "q_range", "q_fixed_group_add",
+    "q_variable_group_add", "s_sigma_1", "s_sigma_2", "s_sigma_3", "s_sigma_4",
+];
+
+/// Proof commitments in serialized order (48 bytes each, offsets 0..528).
+pub const A_COMM: usize = 0;
+pub const B_COMM: usize = 1;
+pub const C_COMM: usize = 2;
+pub const D_COMM: usize = 3;
+pub const Z_COMM: usize = 4;
+pub const T_LOW_COMM: usize = 5;
+pub const T_MID_COMM: usize = 6;
+pub const T_HIGH_COMM: usize = 7;
+pub const T_FOURTH_COMM: usize = 8;
+pub const W_Z_COMM: usize = 9;
+pub const W_ZW_COMM: usize = 10;
+pub const COMM_NAMES: [&str; 11] = [
+    "a_comm", "b_comm", "c_comm", "d_comm", "z_comm", "t_low_comm", "t_mid_comm", "t_high_comm", "t_fourth_comm",
+    "w_z_chall_comm", "w_z_chall_w_comm",
+];
+
+/// Proof evaluations in serialized order (32 bytes LE each, offsets 528..1008).
+pub const A_EVAL: usize = 0;
+pub const B_EVAL: usize = 1;
+pub const C_EVAL: usize = 2;
+pub const D_EVAL: usize = 3;
+pub const A_W_EVAL: usize = 4;
+pub const B_W_EVAL: usize = 5;
+pub const D_W_EVAL: usize = 6;
+pub const Q_ARITH_EVAL: usize = 7;
+pub const Q_C_EVAL: usize = 8;
+pub const Q_L_EVAL: usize = 9;
+pub const Q_R_EVAL: usize = 10;
+pub const S_SIGMA_1_EVAL: usize = 11;
+pub const S_SIGMA_2_EVAL: usize = 12;
+pub const S_SIGMA_3_EVAL: usize = 13;
+/// permutation polynomial evaluated at z*omega
+pub const Z_EVAL: usize = 14;
+pub const EVAL_NAMES: [&str; 15] = [
+    "a_eval", "b_eval", "c_eval", "d_eval", "a_w_eval", "b_w_eval", "d_w_eval", "q_arith_eval", "q_c_eval", "q_l_eval",
+    "q_r_eval", "s_sigma_1_eval", "s_sigma_2_eval", "s_sigma_3_eval", "z_eval",
+];
+
+pub const PROOF_SIZE: usize = 11 * 48 + 15 * 32;
+pub const N_FIELDS: usize = 26;
+
+/// Name of proof field `f` (0..11 commitments, 11..26 evaluations).
+pub fn field_name(f: usize) -> &'static str {
+    if f < 11 {
+        COMM_NAMES[f]
+    } else {
+        EVAL_NAMES[f - 11]
+    }
+}
+/// Byte range of proof field `f`.
+pub fn field_range(f: usize) -> (usize, usize) {
+    if f < 11 {
+        (f * 48, f * 48 + 48)
+    } else {
+        (528 + (f - 11) * 32, 528 + (f - 11) * 32 + 32)
+    }
+}
+/// Field containing byte `b` of the serialized proof.
+pub fn field_of_byte(b: usize) -> usize {
+    if b < 528 {
+        b / 48
+    } else {
+        11 + (b - 528) / 32
+    }
+}
+
+#[derive(Clone, Debug)]
+pub struct VerifierData {
+    pub label: Vec<u8>,
+    /// `VerifierKey::n` (number of constraints, not padded)
+    pub n: usize,
+    /// header field `size`
+    pub size: usize,
+    /// header field `constraints`
+    pub constraints: usize,
+    /// order: see the `Q_M .. S_SIGMA_4` constants
+    pub commitments: [G1Affine; 15],
+    pub g: G1Affine,
+    pub h: G2Affine,
+    pub x_h: G2Affine,
+    pub pi_rows: Vec<usize>,
+}
+
+#[derive(Clone, Debug, PartialEq, Eq)]
+pub struct ProofData {
+    pub comms: [G1Affine; 11],
+    pub evals: [Fe; 15],
+}
+
+#[derive(Clone, Copy, Debug, PartialEq, Eq, Hash)]
+pub enum Version {
+    V1,
+    V2,
+    V3,
+}
+impl Version {
+    pub fn name(&self) -> &'static str {
+        match self {
+            Version::V1 => "V1",
+            Version::V2 => "V2",
+            Version::V3 => "V3",
+        }
+    }
+}
+
+// ---------------------------------------------------------------------------
+// Decoding
+// ---------------------------------------------------------------------------
+
+fn be_u64(b: &[u8]) -> u64 {
+    let mut a = [0u8; 8];
+    a.copy_from_slice(&b[..8]);
+    u64::from_be_bytes(a)
+}
+fn le_u64(b: &[u8]) -> u64 {
+    let mut a = [0u8; 8];
+    a.copy_from_slice(&b[..8]);
+    u64::from_le_bytes(a)
+}
+
+/// A compressed G1 element: canonical x, flags consistent, on the curve and in
+/// the prime-order subgroup (the identity is a valid element).
+pub fn decode_g1(b: &[u8]) -> Result<G1Affine, String> {
+    if b.len() != 48 {
+        return Err(format!("G1 needs 48 bytes, got {}", b.len()));
+    }
+    let mut a = [0u8; 48];
+    a.copy_from_slice(b);
+    let p: Option<G1Affine> = G1Affine::from_compressed(&a).into();
+    let p = p.ok_or_else(|| "G1: not a valid compressed point".to_string())?;
+    if !bool::from(p.is_on_curve()) {
+        return Err("G1: off curve".into());
+    }
+    if !bool::from(p.is_torsion_free()) {
+        return Err("G1: not in the prime-order subgroup".into());
+    }
+    Ok(p)
+}
+
+pub fn decode_g2(b: &[u8]) -> Result<G2Affine, String> {
+    if b.len() != 96 {
+        return Err(format!("G2 needs 96 bytes, got {}", b.len()));
+    }
+    let mut a = [0u8; 96];
+    a.copy_from_slice(b);
+    let p: Option<G2Affine> = G2Affine::from_compressed(&a).into();
+    let p = p.ok_or_else(|| "G2: not a valid compressed point".to_string())?;
+    if !bool::from(p.is_on_curve()) {
+        return Err("G2: off curve".into());
+    }
+    if !bool::from(p.is_torsion_free()) {
+        return Err("G2: not in the prime-order subgroup".into());
+    }
+    Ok(p)
+}
+
+/// A canonical (< r) little-endian scalar.
+pub fn decode_fe(b: &[u8]) -> Result<Fe, String> {
+    if b.len() != 32 {
+        return Err(format!("scalar needs 32 bytes, got {}", b.len()));
+    }
+    let mut a = [0u8; 32];
+    a.copy_from_slice(b);
+    let s: Option<Fe> = BlsScalar::from_bytes(&a).into();
+    s.ok_or_else(|| "scalar: not canonical".to_string())
+}
+
+/// Parse `Verifier::to_bytes()`:
+/// six big-endian u64 `[label_len, verifier_key_len, opening_key_len,
+/// n_public_input_indexes, size, constraints]`, the label, the verifier key
+/// (u64 LE `n`, 15 compressed commitments; the current encoding reserves room
+/// for 20 commitments and leaves the last 240 bytes zero — they are ignored
+/// here as they are by the crate's decoder), the opening key (g, h, x_h), the
+/// public-input rows as big-endian u64.
+pub fn parse_verifier(bytes: &[u8]) -> Result<VerifierData, String> {
+    if bytes.len() < 48 {
+        return Err("verifier: header truncated".into());
+    }
+    let label_len = be_u64(&bytes[0..]) as usize;
+    let vk_len = be_u64(&bytes[8..]) as usize;
+    let ok_len = be_u64(&bytes[16..]) as usize;
+    let n_pi = be_u64(&bytes[24..]) as usize;
+    let size = be_u64(&bytes[32..]) as usize;
+    let constraints = be_u64(&bytes[40..]) as usize;
+    let body = &bytes[48..];
+    let need = label_len
+        .checked_add(vk_len)
+        .and_then(|x| x.checked_add(ok_len))
+        .and_then(|x| n_pi.checked_mul(8).and_then(|y| x.checked_add(y)))
+        .ok_or("verifier: length overflow")?;
+    if body.len() != need {
+        return Err(format!("verifier: body is {} bytes, header announces {}", body.len(), need));
+    }
+    if vk_len < 8 + 15 * 48 {
+        return Err("verifier: verifier key too short".into());
+    }
+    if ok_len != 48 + 96 + 96 {
+        return Err("verifier: opening key must be 240 bytes".into());
+    }
+    let label = body[..label_len].to_vec();
+    let vk = &body[label_len..label_len + vk_len];
+    let ok = &body[label_len + vk_len..label_len + vk_len + ok_len];
+    let pi = &body[label_len + vk_len + ok_len..];
+    let n = le_u64(&vk[0..]) as usize;
+    let mut commitments = [G1Affine::identity(); 15];
+    for i in 0..15 {
+        commitments[i] = decode_g1(&vk[8 + 48 * i..8 + 48 * i + 48]).map_err(|e| format!("verifier key {}: {}", VK_COMM_NAMES[i], e))?;
+    }
+    let g = decode_g1(&ok[0..48])?;
+    let h = decode_g2(&ok[48..144])?;
+    let x_h = decode_g2(&ok[144..240])?;
+    if bool::from(g.is_identity()) || bool::from(h.is_identity()) || bool::from(x_h.is_identity()) {
+        return Err("verifier: opening key contains the identity".into());
+    }
+    let pi_rows = (0..n_pi).map(|i| be_u64(&pi[8 * i..]) as usize).collect();
+    Ok(VerifierData { label, n, size, constraints, commitments, g, h, x_h, pi_rows })
+}
+
+/// Parse `Proof::to_bytes()`: exactly 1008 bytes, 11 compressed G1 commitments
+/// then 15 canonical little-endian scalars.
+pub fn parse_proof(bytes: &[u8]) -> Result<ProofData, String> {
+    if bytes.len() != PROOF_SIZE {
+        return Err(format!("proof must be {} bytes, got {}", PROOF_SIZE, bytes.len()));
+    }
+    let mut comms = [G1Affine::identity(); 11];
+    for i in 0..11 {
+        comms[i] = decode_g1(&bytes[48 * i..48 * i + 48]).map_err(|e| format!("{}: {}", COMM_NAMES[i], e))?;
+    }
+    let mut evals = [BlsScalar::zero(); 15];
+    for i in 0..15 {
+        evals[i] = decode_fe(&bytes[528 + 32 * i..528 + 32 * i + 32]).map_err(|e| format!("{}: {}", EVAL_NAMES[i], e))?;
+    }
+    Ok(ProofData { comms, evals })
+}
+
+pub fn proof_to_bytes(p: &ProofData) -> Vec<u8> {
+    let mut out = Vec::with_capacity(PROOF_SIZE);
+    for c in &p.comms {
+        out.extend_from_slice(&c.to_compressed());
+    }
+    for e in &p.evals {
+        out.extend_from_slice(&e.to_bytes());
+    }
+    out
+}
+
+// ---------------------------------------------------------------------------
+// Transcript (Appendix A.2)
+// ---------------------------------------------------------------------------
+
+#[derive(Clone, Copy, Debug, PartialEq, Eq)]
+pub enum Slot {
+    Beta,
+    Gamma,
+    Alpha,
+    RangeSep,
+    LogicSep,
+    FixedSep,
+    VarSep,
+    Z,
+    V,
+    VW,
+    U,
+}
+
+/// One step of the protocol transcript.
+#[derive(Clone, Debug)]
+pub enum Step {
+    /// absorb raw bytes
+    Bytes(&'static [u8], Vec<u8>),
+    /// absorb a u64 (merlin's `append_u64`)
+    U64(&'static [u8], u64),
+    /// absorb a compressed G1 element
+    Point(&'static [u8], G1Affine),
+    /// absorb a 32-byte little-endian scalar
+    Scalar(&'static [u8], Fe),
+    /// absorb the challenge drawn into the given slot earlier
+    Echo(&'static [u8], Slot),
+    /// squeeze 64 bytes, reduce wide, store into the slot
+    Squeeze(&'static [u8], Slot),
+}
+
+/// The whole verifier-side transcript, in protocol order, as a literal table.
+pub fn transcript_table(v: &VerifierData, p: &ProofData, pis: &[Fe], ver: Version) -> Vec<Step> {
+    use Step::*;
+    let c = &v.commitments;
+    // V1 and V2 keep the historical seeding in which the slot labelled
+    // "s_sigma_4" carries s_sigma_1 again; V3 binds all four sigma commitments.
+    let sigma4_slot = match ver {
+        Version::V1 | Version::V2 => c[S_SIGMA_1],
+        Version::V3 => c[S_SIGMA_4],
+    };
+    let mut t = vec![
+        Bytes(b"dom-sep", b"circuit_size".to_vec()),
+        U64(b"n", v.constraints as u64),
+        Point(b"q_m", c[Q_M]),
+        Point(b"q_l", c[Q_L]),
+        Point(b"q_r", c[Q_R]),
+        Point(b"q_o", c[Q_O]),
+        Point(b"q_c", c[Q_C]),
+        Point(b"q_f", c[Q_F]),
+        Point(b"q_arith", c[Q_ARITH]),
+        Point(b"q_range", c[Q_RANGE]),
+        Point(b"q_logic", c[Q_LOGIC]),
+        Point(b"q_variable_group_add", c[Q_VAR]),
+        Point(b"q_fixed_group_add", c[Q_FIXED]),
+        Point(b"s_sigma_1", c[S_SIGMA_1]),
+        Point(b"s_sigma_2", c[S_SIGMA_2]),
+        Point(b"s_sigma_3", c[S_SIGMA_3]),
+        Point(b"s_sigma_4", sigma4_slot),
+        Bytes(b"dom-sep", b"circuit_size".to_vec()),
+        U64(b"n", v.n as u64),
+    ];
+    for pi in pis {
+        t.push(Scalar(b"pi", *pi));
+    }
+    let e = &p.evals;
+    let k = &p.comms;
+    t.extend(vec![
+        Point(b"a_comm", k[A_COMM]),
+        Point(b"b_comm", k[B_COMM]),
+        Point(b"c_comm", k[C_COMM]),
+        Point(b"d_comm", k[D_COMM]),
+        Squeeze(b"beta", Slot::Beta),
+        Echo(b"beta", Slot::Beta),
+        Squeeze(b"gamma", Slot::Gamma),
+        Point(b"z_comm", k[Z_COMM]),
+        Squeeze(b"alpha", Slot::Alpha),
+        Squeeze(b"range separation challenge", Slot::RangeSep),
+        Squeeze(b"logic separation challenge", Slot::LogicSep),
+        Squeeze(b"fixed base separation challenge", Slot::FixedSep),
+        Squeeze(b"variable base separation challenge", Slot::VarSep),
+        Point(b"t_low_comm", k[T_LOW_COMM]),
+        Point(b"t_mid_comm", k[T_MID_COMM]),
+        Point(b"t_high_comm", k[T_HIGH_COMM]),
+        Point(b"t_fourth_comm", k[T_FOURTH_COMM]),
+        Squeeze(b"z_challenge", Slot::Z),
+        Scalar(b"a_eval", e[A_EVAL]),
+        Scalar(b"b_eval", e[B_EVAL]),
+        Scalar(b"c_eval", e[C_EVAL]),
+        Scalar(b"d_eval", e[D_EVAL]),
+        Scalar(b"s_sigma_1_eval", e[S_SIGMA_1_EVAL]),
+        Scalar(b"s_sigma_2_eval", e[S_SIGMA_2_EVAL]),
+        Scalar(b"s_sigma_3_eval", e[S_SIGMA_3_EVAL]),
+        Scalar(b"z_eval", e[Z_EVAL]),
+        Scalar(b"a_w_eval", e[A_W_EVAL]),
+        Scalar(b"b_w_eval", e[B_W_EVAL]),
+        Scalar(b"d_w_eval", e[D_W_EVAL]),
+        Scalar(b"q_arith_eval", e[Q_ARITH_EVAL]),
+        Scalar(b"q_c_eval", e[Q_C_EVAL]),
+        Scalar(b"q_l_eval", e[Q_L_EVAL]),
+        Scalar(b"q_r_eval", e[Q_R_EVAL]),
+        Squeeze(b"v_challenge", Slot::V),
+        Squeeze(b"v_w_challenge", Slot::VW),
+        Point(b"w_z_chall_comm", k[W_Z_COMM]),
+        Point(b"w_z_chall_w_comm", k[W_ZW_COMM]),
+        Squeeze(b"u_challenge", Slot::U),
+    ]);
+    t
+}
+
+#[derive(Clone, Copy, Debug, PartialEq, Eq)]
+pub struct Challenges {
+    pub beta: Fe,
+    pub gamma: Fe,
+    pub alpha: Fe,
+    pub range_sep: Fe,
+    pub logic_sep: Fe,
+    pub fixed_sep: Fe,
+    pub var_sep: Fe,
+    pub z: Fe,
+    pub v: Fe,
+    pub v_w: Fe,
+    pub u: Fe,
+}
+
+impl Challenges {
+    fn zeroed() -> Self {
+        let z = BlsScalar::zero();
+        Challenges { beta: z, gamma: z, alpha: z, range_sep: z, logic_sep: z, fixed_sep: z, var_sep: z, z, v: z, v_w: z, u: z }
+    }
+    fn slot(&mut self, s: Slot) -> &mut Fe {
+        match s {
+            Slot::Beta => &mut self.beta,
+            Slot::Gamma => &mut self.gamma,
+            Slot::Alpha => &mut self.alpha,
+            Slot::RangeSep => &mut self.range_sep,
+            Slot::LogicSep => &mut self.logic_sep,
+            Slot::FixedSep => &mut self.fixed_sep,
+            Slot::VarSep => &mut self.var_sep,
+            Slot::Z => &mut self.z,
+            Slot::V => &mut self.v,
+            Slot::VW => &mut self.v_w,
+            Slot::U => &mut self.u,
+        }
+    }
+}
+
+/// merlin wants a `'static` protocol label; labels are interned once each.
+fn static_label(label: &[u8]) -> &'static [u8] {
+    use std::collections::HashMap;
+    use std::sync::{Mutex, OnceLock};
+    static INTERN: OnceLock<Mutex<HashMap<Vec<u8>, &'static [u8]>>> = OnceLock::new();
+    let m = INTERN.get_or_init(|| Mutex::new(HashMap::new()));
+    let mut g = m.lock().unwrap_or_else(|e| e.into_inner());
+    if let Some(s) = g.get(label) {
+        return s;
+    }
+    let leaked: &'static [u8] = Box::leak(label.to_vec().into_boxed_slice());
+    g.insert(label.to_vec(), leaked);
+    leaked
+}
+
+/// Run a transcript table over a fresh merlin transcript.
+pub fn run_table(label: &[u8], table: &[Step]) -> Challenges {
+    let mut t = Transcript::new(static_label(label));
+    let mut ch = Challenges::zeroed();
+    for s in table {
+        match s {
+            Step::Bytes(l, b) => t.append_message(l, b),
+            Step::U64(l, x) => t.append_u64(l, *x),
+            Step::Point(l, p) => t.append_message(l, &p.to_compressed()),
+            Step::Scalar(l, x) => t.append_message(l, &x.to_bytes()),
+            Step::Echo(l, slot) => {
+                let x = *ch.slot(*slot);
+                t.append_message(l, &x.to_bytes())
+            }
+            Step::Squeeze(l, slot) => {
+                let mut buf = [0u8; 64];
+                t.challenge_bytes(l, &mut buf);
+                *ch.slot(*slot) = BlsScalar::from_bytes_wide(&buf);
+            }
+        }
+    }
+    ch
+}
+
+pub fn challenges(v: &VerifierData, p: &ProofData, pis: &[Fe], ver: Version) -> Challenges {
+    run_table(&v.label, &transcript_table(v, p, pis, ver))
+}
+
+// ---------------------------------------------------------------------------
+// Domain, Z_H, L_i from their definitions
+// ---------------------------------------------------------------------------
+
+/// Size of the evaluation domain for a circuit of `n` constraints.
+pub fn domain_size(n: usize) -> usize {
+    n.next_power_of_two()
+}
+
+/// Generator of the multiplicative subgroup of order `size` (a power of two):
+/// the 2^32-th root of unity squared down.
+pub fn domain_generator(size: usize) -> Fe {
+    assert!(size.is_power_of_two());
+    let log = size.trailing_zeros();
+    assert!(log < TWO_ADACITY);
+    let mut g = ROOT_OF_UNITY;
+    for _ in 0..(TWO_ADACITY - log) {
+        g = g * g;
+    }
+    g
+}
+
+/// 1, w, w^2, .., w^(size-1)
+pub fn domain_elements(size: usize) -> Vec<Fe> {
+    let w = domain_generator(size);
+    let mut out = Vec::with_capacity(size);
+    let mut x = BlsScalar::one();
+    for _ in 0..size {
+        out.push(x);
+        x = x * w;
+    }
+    out
+}
+
+/// Z_H(x) = prod_j (x - w^j)
+pub fn vanishing(elems: &[Fe], x: &Fe) -> Fe {
+    let mut acc = BlsScalar::one();
+    for e in elems {
+        acc = acc * (x - e);
+    }
+    acc
+}
+
+/// L_i(x) = prod_{j != i} (x - w^j) / (w^i - w^j)
+pub fn lagrange(elems: &[Fe], i: usize, x: &Fe) -> Fe {
+    let mut num = BlsScalar::one();
+    let mut den = BlsScalar::one();
+    for (j, e) in elems.iter().enumerate() {
+        if j != i {
+            num = num * (x - e);
+            den = den * (elems[i] - e);
+        }
+    }
+    num * den.invert().expect("distinct domain elements")
+}
+
+fn delta(f: Fe) -> Fe {
+    f * (f - BlsScalar::from(1)) * (f - BlsScalar::from(2)) * (f - BlsScalar::from(3))
+}
+
+/// JubJub twisted Edwards `d` = -(10240/10241), computed here.
+pub fn edwards_d() -> Fe {
+    -(BlsScalar::from(10240) * BlsScalar::from(10241).invert().unwrap())
+}
+
+/// `[s]P` by own 4-bit fixed-window double-and-add over the canonical value of
+/// `s` (plain group additions and doublings only; about half the cost of the
+/// library's constant-time ladder, which matters for 8064-flip sweeps).
+pub fn mul(p: &G1Affine, s: &Fe) -> G1Projective {
+    if bool::from(p.is_identity()) || *s == BlsScalar::zero() {
+        return G1Projective::identity();
+    }
+    let base = G1Projective::from(*p);
+    let mut table = [G1Projective::identity(); 16];
+    for i in 1..16 {
+        table[i] = table[i - 1] + base;
+    }
+    let bytes = s.to_bytes(); // little-endian canonical
+    let mut acc = G1Projective::identity();
+    for byte in bytes.iter().rev() {
+        for nib in [byte >> 4, byte & 15] {
+            acc = acc.double().double().double().double();
+            if nib != 0 {
+                acc += table[nib as usize];
+            }
+        }
+    }
+    acc
+}
+
+// ---------------------------------------------------------------------------
+// The verification equation (Appendix A.3)
+// ---------------------------------------------------------------------------
+
+/// Everything M2 computes on the way to its verdict (exposed for diagnostics).
+pub struct Trace {
+    pub ch: Challenges,
+    pub z_h: Fe,
+    pub l1: Fe,
+    pub pi_z: Fe,
+    pub r0: Fe,
+    pub e: Fe,
+    pub lhs: G1Affine,
+    pub rhs: G1Affine,
+    pub accept: bool,
+}
+
+pub fn verify(v: &VerifierData, p: &ProofData, pis: &[Fe], ver: Version) -> bool {
+    match verify_trace(v, p, pis, ver) {
+        Some(t) => t.accept,
+        None => false,
+    }
+}
+
+/// `None` = rejected before the equation (PI length, PI row outside the
+/// domain, z in the domain).
+pub fn verify_trace(v: &VerifierData, p: &ProofData, pis: &[Fe], ver: Version) -> Option<Trace> {
+    if pis.len() != v.pi_rows.len() {
+        return None;
+    }
+    let n = domain_size(v.n);
+    if v.pi_rows.iter().any(|r| *r >= n) {
+        return None;
+    }
+    let ch = challenges(v, p, pis, ver);
+    let elems = domain_elements(n);
+    let omega = if n > 1 { elems[1] } else { BlsScalar::one() };
+    let z = ch.z;
+    if elems.iter().any(|e| *e == z) {
+        return None;
+    }
+    let one = BlsScalar::one();
+
+    // --- scalars from definitions -------------------------------------------
+    let z_h = vanishing(&elems, &z);
+    let mut z_n = one; // z^n by n multiplications
+    for _ in 0..n {
+        z_n = z_n * z;
+    }
+    let l1 = lagrange(&elems, 0, &z);
+    let mut pi_z = BlsScalar::zero();
+    for (row, val) in v.pi_rows.iter().zip(pis.iter()) {
+        pi_z = pi_z + *val * lagrange(&elems, *row, &z);
+    }
+
+    let e = &p.evals;
+    let (a, b, c, d) = (e[A_EVAL], e[B_EVAL], e[C_EVAL], e[D_EVAL]);
+    let (a_w, b_w, d_w) = (e[A_W_EVAL], e[B_W_EVAL], e[D_W_EVAL]);
+    let (q_arith_e, q_c_e, q_l_e, q_r_e) = (e[Q_ARITH_EVAL], e[Q_C_EVAL], e[Q_L_EVAL], e[Q_R_EVAL]);
+    let (s1, s2, s3, z_w) = (e[S_SIGMA_1_EVAL], e[S_SIGMA_2_EVAL], e[S_SIGMA_3_EVAL], e[Z_EVAL]);
+    let (alpha, beta, gamma, u, vv, vw) = (ch.alpha, ch.beta, ch.gamma, ch.u, ch.v, ch.v_w);
+    let four = BlsScalar::from(4);
+    let dd = edwards_d();
+    let vk = &v.commitments;
+    let k = &p.comms;
+
+    // --- linearisation commitment D, term by term -----------------------------
+    // arithmetic
+    let mut dcm = mul(&vk[Q_M], &(a * b * q_arith_e));
+    dcm = dcm + mul(&vk[Q_L], &(a * q_arith_e));
+    dcm = dcm + mul(&vk[Q_R], &(b * q_arith_e));
+    dcm = dcm + mul(&vk[Q_O], &(c * q_arith_e));
+    dcm = dcm + mul(&vk[Q_F], &(d * q_arith_e));
+    dcm = dcm + mul(&vk[Q_C], &q_arith_e);
+
+    // range: delta(c-4d) + k*delta(b-4c) + k^2*delta(a-4b) + k^3*delta(d'-4a), times sep
+    {
+        let kap = ch.range_sep * ch.range_sep;
+        let r = delta(c - four * d) + kap * delta(b - four * c) + kap * kap * delta(a - four * b) + kap * kap * kap * delta(d_w - four * a);
+        dcm = dcm + mul(&vk[Q_RANGE], &(r * ch.range_sep));
+    }
+    // logic
+    {
+        let kap = ch.logic_sep * ch.logic_sep;
+        let k2 = kap * kap;
+        let k3 = k2 * kap;
+        let k4 = k3 * kap;
+        let aa = a_w - four * a;
+        let bb = b_w - four * b;
+        let ee = d_w - four * d;
+        let w = c;
+        let nine = BlsScalar::from(9);
+        let three = BlsScalar::from(3);
+        let two = BlsScalar::from(2);
+        let eighteen = BlsScalar::from(18);
+        let eighty_one = BlsScalar::from(81);
+        let eighty_three = BlsScalar::from(83);
+        let f = w * (w * (four * w - eighteen * (aa + bb) + eighty_one) + eighteen * (aa * aa + bb * bb) - eighty_one * (aa + bb) + eighty_three);
+        let op = q_c_e * (nine * ee - three * (aa + bb)) + three * (aa + bb + ee) - two * f;
+        let l = delta(aa) + kap * delta(bb) + k2 * delta(ee) + k3 * (w - aa * bb) + k4 * op;
+        dcm = dcm + mul(&vk[Q_LOGIC], &(l * ch.logic_sep));
+    }
+    // fixed-base
+    {
+        let kap = ch.fixed_sep * ch.fixed_sep;
+        let k2 = kap * kap;
+        let k3 = k2 * kap;
+        let bit = d_w - d - d;
+        let y_alpha = bit * bit * (q_r_e - one) + one;
+        let x_alpha = bit * q_l_e;
+        let c0 = bit * (bit - one) * (bit + one);
+        let c1 = bit * q_c_e - c;
+        let c2 = a_w + a_w * c * a * b * dd - (a * y_alpha + b * x_alpha);
+        let c3 = b_w - b_w * c * a * b * dd - (b * y_alpha + a * x_alpha);
+        let fx = c0 + kap * c1 + k2 * c2 + k3 * c3;
+        dcm = dcm + mul(&vk[Q_FIXED], &(fx * ch.fixed_sep));
+    }
+    // variable-base
+    {
+        let kap = ch.var_sep * ch.var_sep;
+        let c0 = a * d - d_w;
+        let c1 = (d_w + b * c) - a_w * (one + dd * d_w * b * c);
+        let c2 = (b * d + a * c) - b_w * (one - dd * d_w * b * c);
+        let vb = c0 + kap * c1 + kap * kap * c2;
+        dcm = dcm + mul(&vk[Q_VAR], &(vb * ch.var_sep));
+    }
+    // permutation
+    let k1 = BlsScalar::from(7);
+    let k2 = BlsScalar::from(13);
+    let k3 = BlsScalar::from(17);
+    {
+        let x = alpha * (a + beta * z + gamma) * (b + beta * k1 * z + gamma) * (c + beta * k2 * z + gamma) * (d + beta * k3 * z + gamma);
+        dcm = dcm + mul(&k[Z_COMM], &(x + alpha * alpha * l1 + u));
+        let y = alpha * beta * z_w * (a + beta * s1 + gamma) * (b + beta * s2 + gamma) * (c + beta * s3 + gamma);
+        dcm = dcm - mul(&vk[S_SIGMA_4], &y);
+    }
+    // quotient shares
+    {
+        let t = G1Projective::from(k[T_LOW_COMM]) + mul(&k[T_MID_COMM], &z_n) + mul(&k[T_HIGH_COMM], &(z_n * z_n)) + mul(&k[T_FOURTH_COMM], &(z_n * z_n * z_n));
+        dcm = dcm - t * z_h;
+    }
+
+    // --- r0 ------------------------------------------------------------------------
+    let r0 = pi_z - alpha * alpha * l1 - alpha * (a + beta * s1 + gamma) * (b + beta * s2 + gamma) * (c + beta * s3 + gamma) * (d + gamma) * z_w;
+
+    // --- F and E -------------------------------------------------------------------
+    let mut vp = [one; 12]; // vp[i] = v^i
+    for i in 1..12 {
+        vp[i] = vp[i - 1] * vv;
+    }
+    let mut f = dcm;
+    f = f + mul(&k[A_COMM], &vp[1]);
+    f = f + mul(&k[B_COMM], &vp[2]);
+    f = f + mul(&k[C_COMM], &vp[3]);
+    f = f + mul(&k[D_COMM], &vp[4]);
+    f = f + mul(&vk[S_SIGMA_1], &vp[5]);
+    f = f + mul(&vk[S_SIGMA_2], &vp[6]);
+    f = f + mul(&vk[S_SIGMA_3], &vp[7]);
+    let mut ev = -r0 + vp[1] * a + vp[2] * b + vp[3] * c + vp[4] * d + vp[5] * s1 + vp[6] * s2 + vp[7] * s3;
+    match ver {
+        Version::V1 => {}
+        Version::V2 | Version::V3 => {
+            f = f + mul(&vk[Q_ARITH], &vp[8]);
+            f = f + mul(&vk[Q_C], &vp[9]);
+            f = f + mul(&vk[Q_L], &vp[10]);
+            f = f + mul(&vk[Q_R], &vp[11]);
+            ev = ev + vp[8] * q_arith_e + vp[9] * q_c_e + vp[10] * q_l_e + vp[11] * q_r_e;
+        }
+    }
+    f = f + mul(&k[A_COMM], &(u * vw));
+    f = f + mul(&k[B_COMM], &(u * vw * vw));
+    f = f + mul(&k[D_COMM], &(u * vw * vw * vw));
+    ev = ev + u * z_w + u * vw * a_w + u * vw * vw * b_w + u * vw * vw * vw * d_w;
+
+    // --- pairing check ----------------------------------------------------------------
+    let lhs = G1Projective::from(k[W_Z_COMM]) + mul(&k[W_ZW_COMM], &u);
+    let rhs = mul(&k[W_Z_COMM], &z) + mul(&k[W_ZW_COMM], &(u * z * omega)) + f - mul(&v.g, &ev);
+    let lhs = G1Affine::from(lhs);
+    let rhs = G1Affine::from(rhs);
+    let left = pairing(&lhs, &v.x_h);
+    let right = pairing(&rhs, &v.h);
+    let accept = left == right;
+    Some(Trace { ch, z_h, l1, pi_z, r0, e: ev, lhs, rhs, accept })
+}
+
+/// Sanity of M2's own helpers against the trusted primitives; a failure is a
+/// machinery error of the harness, never a verdict.
+pub fn selfcheck() -> Result<(), String> {
+    let mut rho = crate::fe::Rho::new(7, 7);
+    let g = G1Affine::generator();
+    let mut scalars = vec![BlsScalar::zero(), BlsScalar::one(), -BlsScalar::one(), BlsScalar::from(16), BlsScalar::from(0xf0)];
+    for _ in 0..6 {
+        scalars.push(rho.next_fe());
+    }
+    let p = G1Affine::from(G1Projective::from(g) * rho.next_fe());
+    for s in &scalars {
+        for pt in [g, p, G1Affine::identity()] {
+            if G1Affine::from(mul(&pt, s)) != G1Affine::from(G1Projective::from(pt) * *s) {
+                return Err("m2::mul disagrees with the library scalar multiplication".into());
+            }
+        }
+    }
+    for size in [1usize, 2, 8, 64, 512] {
+        let w = domain_generator(size);
+        let mut x = BlsScalar::one();
+        for i in 0..size {
+            if i > 0 && x == BlsScalar::one() {
+                return Err(format!("domain generator for size {} has smaller order", size));
+            }
+            x = x * w;
+        }
+        if x != BlsScalar::one() {
+            return Err(format!("domain generator for size {} is not a {}-th root of unity", size, size));
+        }
+    }
+    // d = -(10240/10241) is a JubJub curve constant: the generator satisfies -u^2 + v^2 = 1 + d u^2 v^2
+    let ga = dusk_jubjub::JubJubAffine::from(dusk_jubjub::GENERATOR_EXTENDED);
+    let (u, v) = (ga.get_u(), ga.get_v());
+    if v * v - u * u != BlsScalar::one() + edwards_d() * u * u * v * v {
+        return Err("edwards_d does not satisfy the curve equation on the JubJub generator".into());
+    }
+    Ok(())
+}
